@@ -7,6 +7,8 @@ package main
 import (
 	"encoding/json"
 	"fmt"
+	"go/ast"
+	"go/parser"
 	"go/scanner"
 	"go/token"
 	"os"
@@ -36,6 +38,65 @@ func operand(t token.Token) bool {
 	return false
 }
 
+// astMutants: structural first-order mutants - an if condition forced to false / true (a dropped or an
+// unconditional special case), a statement deleted (assignment, call, ++/--), a switch case body emptied.
+func astMutants(root string, files []string) {
+	id := 10000
+	enc := json.NewEncoder(os.Stdout)
+	for _, f := range files {
+		src, _ := os.ReadFile(f)
+		lines := strings.Split(string(src), "\n")
+		fset := token.NewFileSet()
+		af, err := parser.ParseFile(fset, f, src, 0)
+		if err != nil {
+			panic(err)
+		}
+		rel, _ := filepath.Rel(root, f)
+		emit := func(from, to token.Pos, new, kind string) {
+			a, b := fset.Position(from), fset.Position(to)
+			id++
+			enc.Encode(mutant{ID: id, File: rel, Line: a.Line, Off: a.Offset, Len: b.Offset - a.Offset, Old: string(src[a.Offset:b.Offset]), New: new, Kind: kind, Src: strings.TrimSpace(lines[a.Line-1])})
+		}
+		ast.Inspect(af, func(n ast.Node) bool {
+			switch x := n.(type) {
+			case *ast.IfStmt:
+				emit(x.Cond.Pos(), x.Cond.End(), "false", "if-false")
+				emit(x.Cond.Pos(), x.Cond.End(), "true", "if-true")
+			case *ast.BlockStmt:
+				for _, st := range x.List {
+					switch y := st.(type) {
+					case *ast.AssignStmt:
+						if y.Tok != token.DEFINE {
+							emit(y.Pos(), y.End(), "", "stmt-deleted")
+						}
+					case *ast.ExprStmt, *ast.IncDecStmt:
+						emit(y.Pos(), y.End(), "", "stmt-deleted")
+					}
+				}
+			case *ast.CaseClause:
+				if len(x.Body) > 0 {
+					for _, st := range x.Body {
+						switch y := st.(type) {
+						case *ast.AssignStmt:
+							if y.Tok != token.DEFINE {
+								emit(y.Pos(), y.End(), "", "stmt-deleted")
+							}
+						case *ast.ExprStmt, *ast.IncDecStmt:
+							emit(y.Pos(), y.End(), "", "stmt-deleted")
+						}
+					}
+				}
+			case *ast.ForStmt:
+				if x.Cond != nil {
+					emit(x.Cond.Pos(), x.Cond.End(), "false", "loop-skipped")
+				}
+			}
+			return true
+		})
+	}
+	fmt.Fprintln(os.Stderr, id-10000, "ast mutants")
+}
+
 func main() {
 	root := os.Args[1]
 	var files []string
@@ -52,6 +113,10 @@ func main() {
 		return nil
 	})
 	sort.Strings(files)
+	if len(os.Args) > 2 && os.Args[2] == "ast" {
+		astMutants(root, files)
+		return
+	}
 	id := 0
 	enc := json.NewEncoder(os.Stdout)
 	for _, f := range files {
